@@ -66,6 +66,20 @@ def jobs_for(pid, tier):
 
 NBR_LOOPS = ["h3NeighborRotations", "directionForNeighbor"]
 
+UP7_DEFS = {"coordijk": ["-D_upAp7=_upAp7_real", "-D_upAp7r=_upAp7r_real"]}
+UP7_DEFS_CHK = {"coordijk": ["-D_upAp7=_upAp7_real", "-D_upAp7r=_upAp7r_real", "-D_upAp7Checked=_upAp7Checked_real", "-D_upAp7rChecked=_upAp7rChecked_real"]}
+
+
+def up7_lemma(logb=10, checked=False):
+    """L-UP7 lemma jobs for |i|,|j|,|k| <= 2^logb (the range the composite harnesses assert)."""
+    js = []
+    for r in (False, True):
+        defs = ["-DB=(1<<%d)" % logb] + (["-DR"] if r else []) + (["-DCHECKED"] if checked else [])
+        nm = "lemma_up7%s%s_b%d" % ("r" if r else "", "chk" if checked else "", logb)
+        js += with_witness(J(nm, "L_up7.c", defs, unwind=3, est=20, bound="|i|,|j|,|k| <= 2^%d" % logb, core=True, timeout=1500))
+    return js
+
+
 # ------------------------------------------------------------------------------------------- C01
 @prop("C01",
       functions=["isValidCell", "isPentagon", "_isBaseCellPentagon", "_isValidCell_pent", "_isValidCell_const", "_hasAny7UptoRes", "_hasAll7AfterRes", "_firstOneIndex"],
@@ -76,6 +90,24 @@ NBR_LOOPS = ["h3NeighborRotations", "directionForNeighbor"]
 def c01(tier):
     js = []
     js += with_witness(J("valid_allwords", "C01_valid.c", unwind=17, est=5, bound="all 2^64 words"))
+    # closure of producers (same harnesses as the properties that own them, on a spread of resolutions)
+    for r in (0, 1, 5, 10, 15):
+        js.append(J("closure_nbr_r%d" % r, "C05_nbr.c", ["-DRES=%d" % r, "-DCLOSURE"], unwind=r + 2, est=10 + 5 * r, bound="neighbour step, all valid cells of res %d" % r))
+        js.append(J("closure_parent_r%d" % r, "C04_tree.c", ["-DPARENT", "-DRES=%d" % r], unwind=17, est=5, bound="cellToParent, res %d" % r))
+        js.append(J("closure_centerchild_r%d" % r, "C04_tree.c", ["-DSIZE", "-DRES=%d" % r], unwind=17, est=5, bound="cellToCenterChild, res %d" % r))
+        js.append(J("closure_iter_c%d" % r, "C04_tree.c", ["-DITSTEP", "-DRES=%d" % r], unwind=18, est=10, bound="iterStepChild (=> cellToChildren, uncompactCells, polygon fill output), child res %d" % r))
+        js.append(J("closure_edge_r%d" % r, "C10_edges.c", ["-DDEST", "-DRES=%d" % r], unwind=r + 2, est=20, mem=("M" if r >= 9 else "S"), bound="directed-edge origin/destination, res %d" % r))
+    for (p, c) in ((0, 2), (4, 5), (13, 15)):
+        js.append(J("closure_childpos_%d_%d" % (p, c), "C13_childpos.c", ["-DFWD", "-DPRES=%d" % p, "-DCRES=%d" % c], unwind=17,
+                    us={"_ipow.0": 6, "childPosToCell.0": c - p + 2, "childPosToCell.1": c - p + 2, "cellToChildPos.0": c - p + 2, "cellToChildPos.1": c - p + 2, "cellToParent.0": c + 2}, est=20, bound="childPosToCell (%d,%d)" % (p, c)))
+    js.append(J("closure_pentagons", "C03_counts.c", ["-DPENTS", "-DRES=3"], unwind=17, us={"harness.0": 15, "harness.1": 13, "setH3Index.0": 17}, est=5, bound="getPentagons, all int res"))
+    js.append(J("closure_res0", "C03_counts.c", ["-DRES0"], unwind=17, est=5, bound="getRes0Cells"))
+    js += up7_lemma(10)
+    for r, maxd in ((0, 3), (1, 8), (2, 15), (3, 50)):
+        t = "quick" if r <= 1 else "thorough"
+        j = J("closure_faceijk_r%d" % r, "C01_closure.c", ["-DRES=%d" % r, "-DMAXD=%d" % maxd, "-DUPB=(1<<10)"], unwind=r + 2, us={"_faceIjkToH3.0": r + 2}, unit_defs=UP7_DEFS, est=60 + 200 * r, mem="M", tier=t, timeout=3000,
+              bound="_faceIjkToH3 on every ijk+ address with i+j+k <= %d of every face at res %d" % (maxd, r))
+        js += with_witness(j, tier=t) if r == 1 else [j]
     return js
 
 
@@ -209,20 +241,6 @@ def c10(tier):
     js += with_witness(J("dest_r1", "C10_edges.c", ["-DDEST", "-DRES=1"], unwind=3, est=5))[1:]
     js += with_witness(J("cells2edge_r1", "C10_edges.c", ["-DCELLS2EDGE", "-DRES=1"], unwind=3, est=30, mem="M"))[1:]
     js += with_witness(J("anydest_r0", "C10_edges.c", ["-DANYDEST", "-DRES=0"], unwind=2, us={"harness.0": 8}, est=30, mem="M"))[1:]
-    return js
-
-
-UP7_DEFS = {"coordijk": ["-D_upAp7=_upAp7_real", "-D_upAp7r=_upAp7r_real"]}
-UP7_DEFS_CHK = {"coordijk": ["-D_upAp7=_upAp7_real", "-D_upAp7r=_upAp7r_real", "-D_upAp7Checked=_upAp7Checked_real", "-D_upAp7rChecked=_upAp7rChecked_real"]}
-
-
-def up7_lemma(logb=10, checked=False):
-    """L-UP7 lemma jobs for |i|,|j|,|k| <= 2^logb (the range the composite harnesses assert)."""
-    js = []
-    for r in (False, True):
-        defs = ["-DB=(1<<%d)" % logb] + (["-DR"] if r else []) + (["-DCHECKED"] if checked else [])
-        nm = "lemma_up7%s%s_b%d" % ("r" if r else "", "chk" if checked else "", logb)
-        js += with_witness(J(nm, "L_up7.c", defs, unwind=3, est=20, bound="|i|,|j|,|k| <= 2^%d" % logb, core=True, timeout=1500))
     return js
 
 
